@@ -182,6 +182,9 @@ def run(rep: core.Report):
 
     rep.rule("R16h", "what save() writes is one state: after Phonopy.masses is assigned, unit cell, supercell and primitive cell all hold the new masses (the loader rebuilds everything from the unit cell), each derived from the freshly assigned values and not from an attribute read before its own update", 4)
     c03.masses_setter(rep, "R16h")
+    from rules import shared_forward
+
+    shared_forward.run(rep, "R16i", LOADH, None, 5)
     rep.rule("R16a", "yaml key agreement: every key the loader needs for the fields the property names is emitted by the dumper and vice versa; every other key the loader reads is emitted or a listed legacy key; a membership test guards the key that is then looked up", 45)
     rep.rule("R16b", "save() hands every piece of state to the dumper; dumper settings keys are known", 14)
     rep.rule("R16c", "writers of whitespace-tokenised files separate adjacent numeric fields by a literal delimiter and write as many fields per line as the parser reads", 6)
